@@ -28,7 +28,12 @@ Proof. vm_compute. reflexivity. Qed.
 Lemma grammar_rules_are_documented : gen_grammar_rules = doc_grammar_rules.
 Proof. vm_compute. reflexivity. Qed.
 
-(* the functions transcribed by hand in Model/Expr.v still read as they did when transcribed *)
+(* the functions transcribed by hand in Model/Expr.v still read as they did when transcribed.  Expr.eval_new and
+   Expr.exact_eval are excepted: they are tied semantically, whatever their text (Gen/Facts_Expr.v, Tie/Expr_tie.v,
+   Properties/C12_source.v: the interpreter on their regenerated IR computes Expr.eval_new / Expr.exact_eval) *)
+Definition source_tied (p : string * string) : bool :=
+  String.eqb (fst p) "expr.Expr.eval_new" || String.eqb (fst p) "expr.Expr.exact_eval".
 Lemma modelled_sources_unchanged :
-  gen_other_expr_rules = modelled_other_expr_rules /\ gen_model_sources = modelled_sources.
+  gen_other_expr_rules = modelled_other_expr_rules /\
+  gen_model_sources = filter (fun p => negb (source_tied p)) modelled_sources.
 Proof. split; vm_compute; reflexivity. Qed.
